@@ -637,6 +637,14 @@ impl ContainsGenericsExt for syn::Type {
                     if qself.ty.contains_generics(type_params) {
                         return true;
                     }
+                    // A projection of the deriving type itself (`<Self as Trait>::Out`) depends
+                    // on its parameters too.
+                    if matches!(
+                        &*qself.ty,
+                        Self::Path(syn::TypePath { qself: None, path }) if path.is_ident("Self"),
+                    ) {
+                        return true;
+                    }
                 }
 
                 if let Some(ident) = path.get_ident() {
